@@ -78,6 +78,11 @@ def generate(streams: Streams, tier: str, index: int) -> dict:
             d["radius"] = d["radius"] * unit
             if d.get("interface_width") is not None:
                 d["interface_width"] = d["interface_width"] * unit
+    if rng.random() < 0.04:
+        # one coordinate in the subnormal range (the origin up to rounding noise of another
+        # computation): intermediate products underflow, which is not an error
+        d = drops[rng.randrange(len(drops))]
+        d["position"][rng.randrange(dim)] = rng.choice([5e-324, 3e-310, -2.0e-308, 1e-320])
     # a small fraction of runs also goes through a numba-compiled caller (costly to compile)
     every = 400 if tier == "quick" else 150
     compiled = index % every == 0
